@@ -298,7 +298,7 @@ NAT_SIMP = "Nat.reduceAdd, Nat.reduceMul, ↓reduceIte, Nat.reduceEqDiff"
 DEF_SIMP = ("efieldLocal, quadForm, tab9, efieldClosed, efieldClosedSing, regV1, regV0, singV1, singV0, gradFac, mfieldTerm, "
             "efieldPotTerm, mfieldPotTerm, efieldFarTerm, mfieldFarTerm, efieldRemainder, rwgVtx, rwgVal, rwgDiv, rwgDivIe, edgeLen, "
             "elems, elemsT, elemsS, vtxU, vtxV, dot3, cross3, triple, lam")
-RING = "generalize_atoms [piola, pt]\n    ring"
+ZERO_SIMP = "mul_zero, zero_mul, add_zero, zero_add, sub_zero, zero_sub, neg_zero, zero_div"
 
 
 class Pool:
@@ -602,7 +602,7 @@ def generate(env=None):
     trace_mods = em.write_traces(changed)
 
     def simp_ring(defs, pre=""):
-        return f"{pre}  simp only [{CP_SIMP}, {NAT_SIMP}, {DEF_SIMP}, {', '.join(defs)}]\n  constructor\n  · {RING}\n  · {RING}"
+        return f"{pre}  simp only [{CP_SIMP}, {NAT_SIMP}, {DEF_SIMP}, {', '.join(defs)}, {ZERO_SIMP}]\n  mx_finish"
 
     def csum(terms, zero="0"):
         return " +\n        ".join(terms) if terms else zero
@@ -624,13 +624,13 @@ def generate(env=None):
         for sig in trial_elems:
             if adj(tau, sig):
                 continue
-            em.add("MaxwellScalar", f"mx_scalar_regular_closed_form_v0_{tau}_{sig}",
+            em.add("MaxwellScalarReg", f"mx_scalar_regular_closed_form_v0_{tau}_{sig}",
                    f"{em.cp('gv0', tau, sig, **UNIT)}\n      = regV0 {Wreg(tau, sig)} {Greg(tau, sig)}",
                    simp_ring(em.unfold("gv0", tau, sig)))
             for m in range(3):
                 for n in range(3):
                     a, b = 3 * tau + m, 3 * sig + n
-                    em.add("MaxwellScalar", f"mx_scalar_regular_closed_form_v1_{a}_{b}",
+                    em.add("MaxwellScalarReg", f"mx_scalar_regular_closed_form_v1_{a}_{b}",
                            f"{em.cp('gv1', a, b, **UNIT)}\n      = regV1 {Wreg(tau, sig)} {Greg(tau, sig)} {PHI} {PHI} {m} {n}",
                            simp_ring(em.unfold("gv1", a, b)))
 
@@ -645,12 +645,12 @@ def generate(env=None):
 
     for k, pr in enumerate(ag.SING_PAIRS):
         W, Gs, ft, fs = sing_data(pr)
-        em.add("MaxwellScalar", f"mx_scalar_singular_closed_form_v0_{k}",
+        em.add("MaxwellScalarSing", f"mx_scalar_singular_closed_form_v0_{k}",
                f"{em.cp('gv0s', k, 0)}\n      = singV0 {W} {Gs}", simp_ring(em.unfold("gv0s", k, 0)))
         for m in range(3):
             for n in range(3):
                 slot = 9 * k + 3 * m + n
-                em.add("MaxwellScalar", f"mx_scalar_singular_closed_form_v1_{k}_{m}_{n}",
+                em.add("MaxwellScalarSing", f"mx_scalar_singular_closed_form_v1_{k}_{m}_{n}",
                        f"{em.cp('gv1s', slot, 0)}\n      = singV1 {W} {Gs} {ft} {fs} {m} {n}", simp_ring(em.unfold("gv1s", slot, 0)))
 
     # ---- (a) C06: electric field, regular: closed form of every local block, then the decomposition
@@ -721,7 +721,7 @@ def generate(env=None):
                        f"{em.cp('mxes', slot, 0)}\n      = efieldClosedSing {KK} {W} {Gs} {psit} {psis}\n"
                        f"          (rwgDiv {ONE} elems el ie {tau} {i}) (rwgDiv {ONE} elems el ie {sig} {j})",
                        f"{pre}  simp only [{CP_SIMP}, {NAT_SIMP}, {DEF_SIMP}, {', '.join(em.unfold('mxes', slot, 0))}]\n"
-                       f"  constructor\n  · field_simp\n    {RING}\n  · field_simp\n    {RING}", hyps=hy)
+                       f"  mx_finish_field", hyps=hy)
                 tab = " ".join(em.cp("gv1s", 9 * k + 3 * m + n, 0) for m in range(3) for n in range(3))
                 rws = [f"mx_efield_singular_closed_form_{k}_{i}_{j} (hie := hie) (hk := hk)"]
                 rws += [f"mx_scalar_singular_closed_form_v1_{k}_{m}_{n}" for m in range(3) for n in range(3)]
@@ -746,7 +746,7 @@ def generate(env=None):
                 rws = [f"{h} {x} {y}" for h in rw for (x, y) in prs]
                 em.add("MaxwellSymmetric", f"mx_{tag}_regular_symmetric_{i}_{j}",
                        f"{em.cp(fam, a, b, ms='mt')}\n      = {em.cp(fam, b, a, ms='mt')}",
-                       f"  simp only [CP.mk.injEq, {', '.join(sorted(set(used)) + rws)}]\n  constructor\n  · {RING}\n  · {RING}", hyps=hyps)
+                       f"  simp only [CP.mk.injEq, {', '.join(sorted(set(used)) + rws)}]\n  mx_finish", hyps=hyps)
     # ---- magnetic field, regular local blocks: closed form
     for tau in test_elems:
         for sig in trial_elems:
@@ -847,25 +847,35 @@ def generate(env=None):
 
 
 # groups whose proofs cite theorems of other groups
-GROUP_DEPS = {"MaxwellEfieldRegular": ("MaxwellEfieldClosed", "MaxwellScalar"), "MaxwellEfieldSingular": ("MaxwellScalar",)}
+GROUP_DEPS = {"MaxwellEfieldRegular": ("MaxwellEfieldClosed", "MaxwellScalarReg"), "MaxwellEfieldSingular": ("MaxwellScalarSing",)}
+# trace modules (pools) each group needs: a change of one assembler only rebuilds the groups that mention it
+GROUP_POOLS = {"MaxwellScalarReg": ("Reg",), "MaxwellScalarSing": ("Sing",), "MaxwellEfieldClosed": ("Reg",),
+               "MaxwellEfieldRegular": ("Reg",), "MaxwellEfieldScatter": ("Reg",), "MaxwellEfieldSingular": ("Sing",),
+               "MaxwellSymmetric": ("Reg", "MReg"), "MaxwellMfieldRegular": ("MReg",), "MaxwellMfieldSingular": ("Sing",),
+               "MaxwellTwoEfield": ("TwoE", "Pot"), "MaxwellTwoMfield": ("TwoM", "Pot"), "MaxwellPotential": ("Pot",)}
+GROUP_SIZE = {"MaxwellTwoEfield": 7, "MaxwellTwoMfield": 9, "MaxwellPotential": 16, "MaxwellMfieldRegular": 18,
+              "MaxwellEfieldSingular": 18, "MaxwellEfieldClosed": 14}
+GROUP_HEARTBEATS = {"MaxwellTwoEfield": 1600000, "MaxwellTwoMfield": 1600000}
 
 
 def write_groups(em, trace_mods, changed, max_per_file=30):
-    imports, files = [], {}
+    imports, files, chunks_of = [], {}, {}
     section = f"section\nvariable {{K : Type}} [Field K] {em.B}\n"
     for grp, items in sorted(em.groups.items()):
-        chunks = [items[i:i + max_per_file] for i in range(0, len(items), max_per_file)]
-        files[grp] = [f"AsmMatch{grp}" + (str(n + 1) if len(chunks) > 1 else "") for n in range(len(chunks))]
-    for grp, items in sorted(em.groups.items()):
-        chunks = [items[i:i + max_per_file] for i in range(0, len(items), max_per_file)]
-        for mod, chunk in zip(files[grp], chunks):
+        n = GROUP_SIZE.get(grp, max_per_file)
+        chunks_of[grp] = [items[i:i + n] for i in range(0, len(items), n)]
+        files[grp] = [f"AsmMatch{grp}" + (str(k + 1) if len(chunks_of[grp]) > 1 else "") for k in range(len(chunks_of[grp]))]
+    for grp in sorted(em.groups):
+        for mod, chunk in zip(files[grp], chunks_of[grp]):
             body = ["-- GENERATED by props/asm_gen_mx.py -- do not edit."]
-            body += [f"import BemppVerif.Gen.{m}" for m in trace_mods]
+            body += [f"import BemppVerif.Gen.AsmTracesMaxwell{p}" for p in GROUP_POOLS[grp]]
             body += [f"import BemppVerif.Gen.{m}" for g in GROUP_DEPS.get(grp, ()) for m in files.get(g, ())]
-            body += ["import Mathlib.Tactic.FieldSimp",
+            body += ["import BemppVerif.Lemmas.MaxwellTactic",
                      "namespace BemppVerif.AsmMatch", "open BemppVerif BemppVerif.Mx BemppVerif.Gen.AsmTracesMx",
-                     "set_option linter.unusedVariables false", "set_option linter.unusedSimpArgs false", "", section]
-            body += chunk + ["end", "end BemppVerif.AsmMatch", ""]
+                     "set_option linter.unusedVariables false", "set_option linter.unusedSimpArgs false"]
+            if grp in GROUP_HEARTBEATS:
+                body.append(f"set_option maxHeartbeats {GROUP_HEARTBEATS[grp]}")
+            body += ["", section] + chunk + ["end", "end BemppVerif.AsmMatch", ""]
             changed.append(T.write_if_changed(os.path.join(LEAN, f"BemppVerif/Gen/{mod}.lean"), "\n".join(body)))
             imports.append(f"import BemppVerif.Gen.{mod}")
     return imports
